@@ -272,6 +272,7 @@ def conn_jobs():
             gt = dict(base); gt.update(extra_t); j["grid_thorough"] = gt
         jobs.append(j)
     J("conn", {"K": [3], "THR": [1], "CR": [1], "MODEL": [2]}, {"K": [4], "THR": [1], "CR": [1], "MODEL": [2]})
+    jobs[-1]["exec_budget_s"] = 300
     J("conn_k1", {"K": [1], "THR": [1], "CR": [1], "MODEL": [2]})
     jobs[-1]["exec_budget_s"] = 240
     J("conn_wiring", {"K": [0], "THR": [0, 1], "CR": [0, 1], "MODEL": [0, 1, 2, 3]})
